@@ -73,7 +73,13 @@ func polygamma_atinfinityplus(n int, x float64) float64 {
   if n > factorialMax && float64(n)*float64(n) > MaxLogFloat64 {
     part_term = 0.0
   } else {
-    part_term = Factorial(n - 1)*math.Pow(x, float64(-n-1))
+    part_term = math.Pow(x, float64(-n-1))
+    if part_term < 0x1p-970 {
+      // the power is subnormal (or 0) and has lost digits: use logs below
+      part_term = 0.0
+    } else {
+      part_term *= Factorial(n - 1)
+    }
   }
   if part_term == 0 {
     v, _ := math.Lgamma(float64(n))
